@@ -16,6 +16,7 @@ package proxy
 
 import (
 	"fmt"
+	"github.com/fatedier/frp/pkg/util/verifhook"
 	"net"
 	"reflect"
 	"strconv"
@@ -62,6 +63,7 @@ func (pxy *TCPProxy) Run() (remoteAddr string, err error) {
 		}()
 		pxy.realBindPort = realBindPort
 		pxy.listeners = append(pxy.listeners, l)
+		verifhook.At("tcp.group.listen", "pxy", verifhook.ID(pxy.BaseProxy), "name", pxy.name, "port", realBindPort, "group", pxy.cfg.LoadBalancer.Group, "addr", l.Addr().String())
 		xl.Infof("tcp proxy listen port [%d] in group [%s]", pxy.cfg.RemotePort, pxy.cfg.LoadBalancer.Group)
 	} else {
 		pxy.realBindPort, err = pxy.rc.TCPPortManager.Acquire(pxy.name, pxy.cfg.RemotePort)
@@ -74,6 +76,7 @@ func (pxy *TCPProxy) Run() (remoteAddr string, err error) {
 			}
 		}()
 		listener, errRet := net.Listen("tcp", net.JoinHostPort(pxy.serverCfg.ProxyBindAddr, strconv.Itoa(pxy.realBindPort)))
+		verifhook.At("tcp.listen", "pxy", verifhook.ID(pxy.BaseProxy), "name", pxy.name, "port", pxy.realBindPort, "err", errRet)
 		if errRet != nil {
 			err = errRet
 			return
@@ -90,6 +93,7 @@ func (pxy *TCPProxy) Run() (remoteAddr string, err error) {
 
 func (pxy *TCPProxy) Close() {
 	pxy.BaseProxy.Close()
+	verifhook.At("tcp.close.unbound", "pxy", verifhook.ID(pxy.BaseProxy), "name", pxy.name, "port", pxy.realBindPort, "group", pxy.cfg.LoadBalancer.Group)
 	if pxy.cfg.LoadBalancer.Group == "" {
 		pxy.rc.TCPPortManager.Release(pxy.realBindPort)
 	}
